@@ -13,8 +13,9 @@
        f(n - 1, ..); n is a non-var parameter with the same protection; callers pass a bounded
        non-negative first argument; such functions are never used as first-class values;
      - apart from that a function body refers only to functions defined before it, and cells
-       whose type contains a function type are never assigned (only the closure idioms do it,
-       with call-free lambdas), so the call graph through function values is well founded;
+       whose type contains a function type are never assigned by the random part (only the idioms
+       do it: id_loopcap / id_forin with call-free lambdas, id_rebind with closures of `adder` /
+       `counter` makers that call nothing), so the call graph through function values is well founded;
      - a cost estimate (loop bounds multiply) keeps the work of a program within a budget; the
        driver additionally runs the evaluator under a wall-clock limit.
 
@@ -120,7 +121,7 @@ let defaults = [
   (* exceptions and environments / frames / heap *)
   "id_catchcap", 0; "id_tempcall", 0;
   (* for-in loops: idiom family, and percent of the random loops that are for-in loops *)
-  "id_forin", 0; "forin", 35;
+  "id_forin", 0; "forin", 35; "id_rebind", 0;
 ]
 
 let profiles = [
@@ -129,10 +130,10 @@ let profiles = [
             "t_int", 80; "t_rec", 3; "t_arr", 3; "t_fun", 2; "i_call", 6; "catch", 15];
   "order", ["id_order", 100; "id_repeat", 3; "print", 25; "i_assign", 12; "i_call", 20; "it_print", 15;
             "b_andor", 30; "depth", 4; "fault", 3];
-  "alias", ["id_forin", 25; "id_alias", 100; "id_repeat", 4; "i_var", 50; "it_assign", 40; "it_var", 35; "it_let", 25;
+  "alias", ["id_rebind", 35; "id_forin", 25; "id_alias", 100; "id_repeat", 4; "i_var", 50; "it_assign", 40; "it_var", 35; "it_let", 25;
             "t_rec", 18; "t_arr", 18; "varparam", 50; "dump", 95; "i_cond", 14; "i_assign", 10; "nrecs_max", 3;
             "x_var", 60; "i_block", 6];
-  "closure", ["id_forin", 60; "id_siblings", 55; "id_catchcap", 55; "id_tempcall", 55; "sib_fwd", 45; "b_nil", 5; "id_deepcap", 75; "id_shadow3", 45; "id_counter", 70; "id_adder", 50; "id_loopcap", 40; "id_reccap", 50; "id_compose", 40;
+  "closure", ["id_rebind", 60; "id_forin", 60; "id_siblings", 55; "id_catchcap", 55; "id_tempcall", 55; "sib_fwd", 45; "b_nil", 5; "id_deepcap", 75; "id_shadow3", 45; "id_counter", 70; "id_adder", 50; "id_loopcap", 40; "id_reccap", 50; "id_compose", 40;
               "it_func", 22; "t_fun", 25; "i_fcall", 18; "i_applam", 6; "rf_fun", 30; "nfuncs_max", 4;
               "depth", 3; "dump", 70];
   "shadow", ["id_forin", 30; "id_siblings", 45; "id_catchcap", 20; "sib_fwd", 45; "shadow", 65; "id_shadow", 80; "id_shadow2", 60; "id_shadow3", 85; "id_deepcap", 35; "it_func", 16; "it_let", 30; "it_var", 30; "i_block", 10;
@@ -149,7 +150,7 @@ let profiles = [
               "nfuncs_max", 2; "main_items", 3; "depth", 2];
   "pipe", ["pp_pipe", 65; "id_pipe", 100; "id_repeat", 2; "i_call", 25; "i_fcall", 10; "it_call", 14; "it_func", 14; "t_fun", 14;
            "id_tail", 25; "id_order", 40; "f_rec", 25; "tail_lo", 30; "tail_hi", 120; "nfuncs_min", 2; "nfuncs_max", 4];
-  "mix", ["id_forin", 25; "id_siblings", 15; "id_catchcap", 15; "id_tempcall", 15; "sib_fwd", 40; "b_nil", 5; "pp_pipe", 8; "id_pipe", 10; "id_deepcap", 15; "id_shadow3", 15; "id_counter", 15; "id_adder", 10; "id_loopcap", 10; "id_reccap", 10; "id_compose", 10; "id_alias", 25;
+  "mix", ["id_rebind", 15; "id_forin", 25; "id_siblings", 15; "id_catchcap", 15; "id_tempcall", 15; "sib_fwd", 40; "b_nil", 5; "pp_pipe", 8; "id_pipe", 10; "id_deepcap", 15; "id_shadow3", 15; "id_counter", 15; "id_adder", 10; "id_loopcap", 10; "id_reccap", 10; "id_compose", 10; "id_alias", 25;
           "id_catch", 25; "id_shadow", 15; "id_shadow2", 10; "id_order", 20; "id_agg", 20; "shadow", 15; "catch", 20; "fault", 8;
           "it_func", 10; "t_fun", 12];
 ]
